@@ -915,7 +915,7 @@ def oracle_hashes(ctx, pool, n_tasks, n_inplace, n_temp):
 # correspondence: recorded call trees against the memo model
 # ---------------------------------------------------------------------------
 
-def record_run(t1, t2, levels=None, **kw):
+def record_run(t1, t2, levels=None, raw=None, **kw):
     """one run with the memoised calls recorded; `levels` (a list) additionally receives, per pairs call of
     the root instance and in call order, (canonical t1-side level path, [(j, i)...]) from C05's recorder"""
     from deepdiff import DeepDiff
@@ -929,6 +929,8 @@ def record_run(t1, t2, levels=None, **kw):
                     return "EXC " + repr(e), rec["roots"], ev
         if levels is not None:
             levels.extend((p, ji) for p, ji, _x, _y in c05.pairs_table(lrec))
+        if raw is not None:
+            raw.extend({"t1_first": dict(x["t1_first"]), "t2_first": dict(x["t2_first"])} for x in lrec)
     return c05.io_obs(r), rec["roots"], ev
 
 
@@ -1047,8 +1049,8 @@ def _trace_task(args):
     t1r, t2r, rep, cs, tune = args
     t1, t2 = c05.from_repr(t1r), c05.from_repr(t2r)
     kw = dict(report_repetition=rep)
-    levels = []
-    base, pure, _ = record_run(t1, t2, levels=levels, **kw)
+    levels, raw = [], []
+    base, pure, _ = record_run(t1, t2, levels=levels, raw=raw, **kw)
     got, cached, ev = record_run(t1, t2, cache_size=cs, cache_tuning_sample_size=tune, **kw)
     if isinstance(base, str) or isinstance(got, str):
         return (t1r, t2r, rep, cs, tune, got == base, "raised", ("", "", ""), "", [], 0, ev["evictions"], 0, 0, (None, None, [], True))
@@ -1089,10 +1091,10 @@ def _trace_task(args):
                 dk[(hid[n["a"]], hid[n["r"]])] = kid[("d", n["key"])]
             else:
                 pkt[(tuple(hid[h] for h in n["adds"]), tuple(hid[h] for h in n["rems"]))] = kid[("p", n["key"])]
+        dk_txt = core.coq_list("(%d, %d, %d)" % (a, r, k) for (a, r), k in dk.items())
+        pk_txt = core.coq_list("(%s, %s, %d)" % (zlist(a), zlist(r), k) for (a, r), k in pkt.items())
         pexpr = "(let dk := %s in let pk := %s in run_trace_p %d %s (%s))" % (
-            core.coq_list("(%d, %d, %d)" % (a, r, k) for (a, r), k in dk.items()),
-            core.coq_list("(%s, %s, %d)" % (zlist(a), zlist(r), k) for (a, r), k in pkt.items()),
-            cs, core.coq_list("true" if b else "false" for b in schedule(cached)), prog_p(pure, hid))
+            dk_txt, pk_txt, cs, core.coq_list("true" if b else "false" for b in schedule(cached)), prog_p(pure, hid))
         plog = []
         for n in fc:      # flatten() is the pre-order of the calls actually made
             oc = 0 if not n["en_get"] else 1 if n["hit"] else 2 if n["en_set"] else 3
@@ -1113,6 +1115,21 @@ def _trace_task(args):
             D.coq_udiff_table(D.udiff_table(t1, t2)), D.coq_cfg(False, 0.33), core.coq_bool(rep), cs,
             core.coq_list("true" if b else "false" for b in sched), pps, decs, V.to_coq(t1), V.to_coq(t2))
         log = [got, log]
+        if pexpr is not None and len(raw) == len(pure) and all(set(n["adds"]) <= set(x["t2_first"]) and set(n["rems"]) <= set(x["t1_first"])
+                                                                for n, x in zip(pure, raw)):
+            # stronger: the pairing of every level is COMPUTED by the pairs model inside the diff model (hashes are numbers; the
+            # dictionary a level's memoised call returns becomes index pairs through the level's hash -> first index tables)
+            pps2 = core.coq_list("(%s, pcall_v dk pk %d %s %s %s %s)" % (
+                D.coq_pathc(p), n["cutoff"], core.coq_list("(%d, %d, %s)" % (hid[ch["a"]], hid[ch["r"]], prog_p(ch["children"], hid, "Ret (VD %d)" % ch["bits"]))
+                                                           for ch in n["children"]),
+                pre_term(n, hid), zlist(hid[h] for h in n["adds"]), zlist(hid[h] for h in n["rems"])) for (p, _ji), n in zip(levels, pure))
+            decs2 = core.coq_list("(%s, %s, %s)" % (D.coq_pathc(p), core.coq_list("(%d, %d%%nat)" % (hid[h], x["t2_first"][h]) for h in n["adds"]),
+                                                    core.coq_list("(%d, %d%%nat)" % (hid[h], x["t1_first"][h]) for h in n["rems"]))
+                                  for (p, _ji), n, x in zip(levels, pure, raw))
+            expr = "(let dk := %s in let pk := %s in run_st2 %s %s %s %d %s %s %s %s %s)" % (
+                dk_txt, pk_txt, D.coq_udiff_table(D.udiff_table(t1, t2)), D.coq_cfg(False, 0.33), core.coq_bool(rep), cs,
+                core.coq_list("true" if b else "false" for b in sched), pps2, decs2, V.to_coq(t1), V.to_coq(t2))
+            log = [got, plog]
         oexpr = "check_o %s %s %s %s %s %s" % (D.coq_udiff_table(D.udiff_table(t1, t2)), D.coq_cfg(False, 0.33), core.coq_bool(rep),
                                                 core.coq_list("(%s, %s)" % (D.coq_pathc(p), core.coq_list("(%d%%nat, %d%%nat)" % (j, i) for j, i in ji)) for p, ji in levels),
                                                 V.to_coq(t1), V.to_coq(t2))
@@ -1251,6 +1268,7 @@ def correspondence(ctx, inputs, pool):
             ctx.count("trace:pairs_body_not_computable(recorded tree used instead)")
         if ((t1r, t2r) in small_set or (ctx.thorough and len(t1r) + len(t2r) < 1400)) and (cs, tune) in (((7, 0), (2, 1), (1, 0), (3, 10)) if ctx.thorough else ((7, 0), (2, 1))):
             cases.append((expr, log, tag))
+            ctx.count("st_trace:pairing_computed_by_the_model" if "run_st2 " in expr else "st_trace:pairing_recorded")
         ccases.append((cexpr, True, tag))
         if (t1r, t2r, rep) not in seen_o and (((t1r, t2r) in small_set and (ctx.thorough or not rep)) or (ctx.thorough and len(t1r) + len(t2r) < 1400)):
             seen_o.add((t1r, t2r, rep))
@@ -1269,7 +1287,7 @@ def correspondence(ctx, inputs, pool):
         # which the model walks the levels; a behaviour-preserving reordering in the implementation (e.g. of dict keys) changes
         # the order of the cache events without touching any result, and the order-agnostic memo-model prediction above
         # (program taken from the recorded run) already covers every event.  So: log-only mismatches are recorded, not alarmed.
-        rc = [(cases[i][0].replace("run_st ", "run_st_result ", 1), [cases[i][1][0]], cases[i][2]) for i, _t, _x in bad]
+        rc = [(cases[i][0].replace("run_st2 ", "run_st2_result ", 1).replace("run_st ", "run_st_result ", 1), [cases[i][1][0]], cases[i][2]) for i, _t, _x in bad]
         bad2 = timed_cases(ctx, "st_result", HEADER, rc, shard=3, label="diff_model_with_one_cache:result(recheck)")
         if not bad2:
             ctx.breaks = [b for b in ctx.breaks if not (b.get("kind") == "correspondence" and b.get("detail", {}).get("name") == "st_trace")]
@@ -1278,7 +1296,8 @@ def correspondence(ctx, inputs, pool):
     else:
         ctx.note("st_traversal_order_differs_from_model", {"cases": 0})
     timed_cases(ctx, "memo_consistent", HEADER, ccases, shard=80, label="same_key_same_value")
-    timed_cases(ctx, "st_order", HEADER, ocases, shard=3, label="t2_key_order_traversal_lists_the_entries_of_diff_io")
+    # proved since round 3 (DiffIO/DiffIOOrder.v: diff_io_o_perm); kept as a small sanity check of the statement's reading
+    timed_cases(ctx, "st_order", HEADER, ocases if ctx.thorough else ocases[:2], shard=3, label="t2_key_order_traversal_lists_the_entries_of_diff_io")
 
 
 # ---------------------------------------------------------------------------
